@@ -15,7 +15,6 @@
 
 import warp as wp
 
-from mujoco_warp._src.types import MJ_MAXVAL
 from mujoco_warp._src.types import MJ_MINVAL
 from mujoco_warp._src.types import Data
 from mujoco_warp._src.types import Model
@@ -783,10 +782,9 @@ def _init_ctrl_history_kernel(
   values_offset = buf_offset + 2 + nsample
 
   for i in range(nsample):
+    # times is None: keep the existing buffer timestamps (as mj_initCtrlHistory / mj_initSensorHistory do)
     if has_times != 0:
       history_out[worldid, times_offset + i] = times[i]
-    else:
-      history_out[worldid, times_offset + i] = -MJ_MAXVAL
     history_out[worldid, values_offset + i] = values[worldid, i]
 
   # restore user slot
@@ -870,10 +868,9 @@ def _init_sensor_history_kernel(
   values_offset = buf_offset + 2 + nsample
 
   for i in range(nsample):
+    # times is None: keep the existing buffer timestamps (as mj_initCtrlHistory / mj_initSensorHistory do)
     if has_times != 0:
       history_out[worldid, times_offset + i] = times[i]
-    else:
-      history_out[worldid, times_offset + i] = -MJ_MAXVAL
     for j in range(dim):
       history_out[worldid, values_offset + i * dim + j] = values[worldid, i * dim + j]
 
